@@ -950,11 +950,21 @@ def sort_seq(I, ctx, seq):
 @model(builtins.enumerate)
 def m_enumerate(I, ctx, args, kwargs, node):
     seq = to_seq(I, ctx, args[0])
-    start = concrete_int(args[1]) if len(args) > 1 else 0
+    start = args[1] if len(args) > 1 else kwargs.get('start', 0)
+    c = concrete_int(start) if not isinstance(start, bool) else int(start)
+    if c is not None:
+        start = c
+    elif not (isinstance(start, z3.ExprRef) and is_num(start)):
+        raise PyvcUnsupported('enumerate with a start that is not an integer')
+
+    def at(k):
+        if isinstance(start, int):
+            return start + k if not is_sym(k) else simp(start + k) if start else k
+        return simp(start + k)
     if isinstance(seq, SymSeq):
         rk = list(range(seq.cap)) if seq.n is not None else ranks(seq)
-        return SymSeq([(start + rk[k] if start else rk[k], e) for k, e in enumerate(seq.slots)], seq.n, seq.flags)
-    return tuple((start + k, e) for k, e in enumerate(seq))
+        return SymSeq([(at(rk[k]), e) for k, e in enumerate(seq.slots)], seq.n, seq.flags)
+    return tuple((at(k), e) for k, e in enumerate(seq))
 
 
 @model(builtins.zip)
